@@ -39,7 +39,8 @@ type replayFile struct {
 }
 
 func main() {
-	debug.SetGCPercent(800) // allocation-heavy (every store iterator allocates); plenty of RAM
+	debug.SetGCPercent(400)       // allocation-heavy (every store iterator allocates)
+	debug.SetMemoryLimit(24 << 30) // collect harder instead of growing towards the machine's RAM
 	if len(os.Args) < 3 {
 		fmt.Fprintln(os.Stderr, "usage: hubmc run <Cxx> [flags] | hubmc replay <file>")
 		os.Exit(2)
